@@ -15,7 +15,10 @@ import (
 	"os"
 	"runtime"
 	"sort"
+	"strings"
 	"sync"
+
+	ics23 "github.com/cosmos/ics23/go"
 
 	bp "github.com/gnolang/gno/tm2/pkg/bptree"
 	dbm "github.com/gnolang/gno/tm2/pkg/db"
@@ -43,13 +46,16 @@ type config struct {
 	NoEmpty  bool      `json:"noempty"` // value 1 is not the empty value (proof runs)
 	// full projection check only on the last CheckLast steps of a behaviour (0 = every step):
 	// for edge emission, where every proper prefix of a behaviour is a behaviour of its own
-	CheckLast int   `json:"checklast"`
-	Proofs    int   `json:"proofs"` // proofs mode: probes per tree state
-	BitFlips  int   `json:"bitflips"`
-	DenseIdx  bool  `json:"denseidx"` // GetByIndex / GetWithIndex on the same stride as Get (3..7) instead of 4x that
-	NoFast    bool  `json:"nofast"`   // open every handle without the fast index / fast storage (C25: not its subject)
-	SvSample  int   `json:"svsample"` // version steps: contents of this many retained versions are swept (0 = all); hashes always of all
-	Seed      int64 `json:"seed"`     // replay of a stored case: the seed of its sampled sweeps
+	CheckLast   int   `json:"checklast"`
+	Proofs      int   `json:"proofs"` // proofs mode: probes per tree state
+	BitFlips    int   `json:"bitflips"`
+	ProofCheck  bool  `json:"proofcheck"`  // version steps: ics23 proofs of a dense sample of keys at every retained version (verdict)
+	FreshHandle bool  `json:"freshhandle"` // after every SaveVersion: hash and contents of the new version through a brand-new handle
+	ShapeStats  bool  `json:"shapestats"`  // bptree: count inner merges into an untouched left sibling (coverage only)
+	DenseIdx    bool  `json:"denseidx"`    // GetByIndex / GetWithIndex on the same stride as Get (3..7) instead of 4x that
+	NoFast      bool  `json:"nofast"`      // open every handle without the fast index / fast storage (C25: not its subject)
+	SvSample    int   `json:"svsample"`    // version steps: contents of this many retained versions are swept (0 = all); hashes always of all
+	Seed        int64 `json:"seed"`        // replay of a stored case: the seed of its sampled sweeps
 }
 
 // ------------------------------------------------------------------ key / value tables
@@ -140,8 +146,22 @@ type env struct {
 	drift                      int    // iavl: prunes refused after a restart (see step "Prune")
 	prevWk                     string // history key of the working tree after the previous step
 	touch                      []int  // key ids around the span of the last write: index reads are compared on all of them
-	tainted                    bool
-	taintOnDisk                bool // ... and a SaveVersion wrote the stale fast nodes into the DB
+	// replay bookkeeping (vacuity requirement of C30): a Replay was saved idempotently (adoptVer), the session went
+	// on without a reload (replayLive) to a NEW version (replaySaved); proofs of keys the replay wrote (replayKeys,
+	// key id -> value id) at later versions are proofs through replayed nodes
+	inReplay, replayLive, replaySaved bool
+	adoptVer                          int
+	replayKeys                        map[int]int
+	prevAvail                         []int  // the versions the spec held after the previous step
+	savedHash                         []byte // what the last successful SaveVersion returned, and for which version
+	savedVer                          int
+	shapePrev                         map[string]innerRec
+	shapePrevVer                      int
+	leftMerges                        int
+	adopted, replayProofs, proofsOK   int
+
+	tainted     bool
+	taintOnDisk bool // ... and a SaveVersion wrote the stale fast nodes into the DB
 }
 
 type hrec struct {
@@ -177,8 +197,18 @@ func (e *env) cleanup() {
 	}
 }
 
+// taintable: the observables the abandoned-session finding shows in (contents and replies), not proofs or hashes
+func taintable(what string) bool {
+	for _, p := range []string{"working:", "reply", "saved:", "snapshot:", "GetVersioned", "contents:"} {
+		if strings.HasPrefix(what, p) {
+			return true
+		}
+	}
+	return false
+}
+
 func (e *env) fail(act, what, detail string) *failure {
-	if e.tainted && what != "panic" {
+	if e.tainted && taintable(what) {
 		what = "fast-storage:LoadVersion-keeps-abandoned-session"
 		act = "iavl"
 	}
@@ -478,11 +508,72 @@ func (e *env) touched(from, cnt int) {
 	}
 }
 
+func (e *env) known(v int) bool {
+	for _, x := range e.prevAvail {
+		if x == v {
+			return true
+		}
+	}
+	return false
+}
+
+// applyOp: one recorded write of the spec's pend list: ["s",k,v] ["r",k] ["f",from,cnt,salt,asc] ["p",off,stride,salt]
+// ["x",from,cnt,asc] ["t",from,cnt,period,lo,hi,asc]
+func (e *env) applyOp(o []any) error {
+	num := func(i int) int { f, _ := o[i].(float64); return int(f) }
+	flag := func(i int) bool { b, _ := o[i].(bool); return b }
+	tag, _ := o[0].(string)
+	switch tag {
+	case "s":
+		_, err := e.t.Set(e.keys[num(1)], e.vals[num(2)])
+		return err
+	case "r":
+		_, _, err := e.t.Remove(e.keys[num(1)])
+		return err
+	case "f":
+		return e.setRange(num(1), num(2), flag(4), func(k int) error {
+			_, err := e.t.Set(e.keys[k], e.valOf(k, num(3)))
+			return err
+		})
+	case "p":
+		for k := num(1); k <= e.cfg.NK; k += num(2) {
+			if _, err := e.t.Set(e.keys[k], e.valOf(k, num(3))); err != nil {
+				return err
+			}
+		}
+		return nil
+	case "x":
+		return e.setRange(num(1), num(2), flag(3), func(k int) error {
+			_, _, err := e.t.Remove(e.keys[k])
+			return err
+		})
+	case "t":
+		from, period, lo, hi := num(1), num(3), num(4), num(5)
+		return e.setRange(from, num(2), flag(6), func(k int) error {
+			if o := (k - from) % period; o < lo || o >= hi {
+				return nil
+			}
+			_, _, err := e.t.Remove(e.keys[k])
+			return err
+		})
+	}
+	return fmt.Errorf("unknown recorded write %q", tag)
+}
+
 func (e *env) valOf(k, salt int) []byte { return e.vals[(k+salt)%e.cfg.NV+1] }
 
 func (e *env) step(s mbt.Step) *failure {
 	act := s.Act()
 	exp := s["reply"]
+	replayed := e.inReplay
+	switch act {
+	case "Set", "SetBad", "Remove", "Fill", "Sparse", "RemoveRange", "Thin", "SaveVersion", "Rollback", "LoadVersion", "Reopen", "Migrate":
+		e.inReplay = false
+	}
+	switch act {
+	case "LoadVersion", "Reopen", "Migrate":
+		e.replayLive = false
+	}
 	switch act {
 	case "Init", "Finish":
 	case "Set":
@@ -585,7 +676,15 @@ func (e *env) step(s mbt.Step) *failure {
 			return e.fail(act, "reply", fmt.Sprintf("SaveVersion = %s (version %d, error %v), spec %v (version %d)", got, v, err, exp, s.Int("v")))
 		}
 		if got == "ok" {
+			switch {
+			case replayed: // the idempotent save of a replay
+				e.adopted++
+				e.adoptVer, e.replayLive, e.replaySaved = int(v), true, false
+			case e.replayLive && int(v) > e.adoptVer && !e.known(int(v)):
+				e.replaySaved = true // a new version saved from the session that adopted the replay
+			}
 			e.taintOnDisk = e.tainted
+			e.savedHash, e.savedVer = append([]byte(nil), h...), int(v)
 			if f := e.noteVerHash(act, int(v), h, "returned by SaveVersion"); f != nil {
 				return f
 			}
@@ -594,6 +693,26 @@ func (e *env) step(s mbt.Step) *failure {
 				return e.fail(act, "hash:save", fmt.Sprintf("SaveVersion returns %x for version %d, WorkingHash() just before it was %x (history key %s)", h, v, wh, clipS(e.prevWk)))
 			}
 		}
+	case "Replay":
+		// re-apply the recorded writes of the successor version, op by op
+		ops, _ := s["ops"].([]any)
+		for _, o := range ops {
+			if err := e.applyOp(o.([]any)); err != nil {
+				return e.fail(act, "error", fmt.Sprintf("replaying %s failed: %v", mbt.JS(o), err))
+			}
+		}
+		e.inReplay = true
+		e.replayKeys = map[int]int{}
+		if st, ok := s["st"].(map[string]any); ok {
+			ver := mbt.Step(st).Int("ver")
+			w := ints(st["w"])
+			for k := 1; k <= len(w) && ver >= 1 && ver <= len(e.lastSv); k++ {
+				if w[k-1] != 0 && w[k-1] != e.lastSv[ver-1][k-1] {
+					e.replayKeys[k] = w[k-1]
+				}
+			}
+		}
+		return nil
 	case "Rollback":
 		e.t.Rollback()
 		e.tainted = e.taintOnDisk
@@ -817,7 +936,7 @@ func (e *env) check(s mbt.Step) *failure {
 	if h := e.t.Height(); h > e.maxH {
 		e.maxH = h
 	}
-	defer func() { e.dirty, _ = st["dirty"].(bool) }()
+	defer func() { e.dirty, _ = st["dirty"].(bool); e.prevAvail = ints(st["avail"]) }()
 	ver := mbt.Step(st).Int("ver")
 	if int(e.t.Version()) != ver {
 		return e.fail(act, "Version", fmt.Sprintf("Version() = %d, spec %d", e.t.Version(), ver))
@@ -873,9 +992,17 @@ func (e *env) check(s mbt.Step) *failure {
 		}
 	}
 	if sv, ok := s["sv"].([]any); ok {
-		e.lastSv = e.lastSv[:0]
+		// sv = [[version, contents], ...] of the retained versions
+		e.lastSv = make([][]int, e.cfg.MaxVer+1)
 		for _, x := range sv {
-			e.lastSv = append(e.lastSv, ints(x))
+			if pair, _ := x.([]any); len(pair) == 2 {
+				if v, _ := pair[0].(float64); int(v) >= 1 && int(v) <= e.cfg.MaxVer {
+					e.lastSv[int(v)-1] = ints(pair[1])
+				}
+			}
+		}
+		if f := e.afterSave(act, s, ver); f != nil {
+			return f
 		}
 		for v := 1; v <= e.cfg.MaxVer+1; v++ {
 			snap, err := e.t.Snapshot(int64(v))
@@ -913,6 +1040,9 @@ func (e *env) check(s mbt.Step) *failure {
 					}
 					e.byHash[hx] = c
 				}
+				if f == nil && e.cfg.ProofCheck {
+					f = e.proveVersion(act, snap, v, e.lastSv[v-1])
+				}
 				// point reads at a version
 				k := 1 + e.rng.Intn(e.cfg.NK)
 				if x, err := e.t.GetVersioned(e.keys[k], int64(v)); f == nil && (err != nil || e.valID(x) != e.lastSv[v-1][k-1]) {
@@ -933,6 +1063,119 @@ func (e *env) check(s mbt.Step) *failure {
 				return e.fail(act, "snapshot:"+a, b)
 			}
 		}
+	}
+	return nil
+}
+
+// afterSave: after a successful SaveVersion the new version is read through a brand-new handle on the same DB: it
+// must report the hash SaveVersion returned (both are "the hash of version v") and the contents the spec holds.
+func (e *env) afterSave(act string, s mbt.Step, ver int) *failure {
+	if act != "SaveVersion" || s.Str("reply") != "ok" || e.savedVer != ver || ver < 1 || e.lastSv[ver-1] == nil {
+		return nil
+	}
+	if e.cfg.ShapeStats && e.cfg.Impl == "bptree" {
+		cur := innerNodes(e.db, int64(ver))
+		if e.shapePrev != nil && e.shapePrevVer == ver-1 {
+			e.leftMerges += mergesIntoUntouchedLeft(e.shapePrev, cur, int64(ver))
+		}
+		e.shapePrev, e.shapePrevVer = cur, ver
+	}
+	if !e.cfg.FreshHandle {
+		return nil
+	}
+	snap, done, err := freshSnapshot(e.cfg.Impl, e.db, int64(ver))
+	if err != nil {
+		return e.fail(act, "fresh-handle:GetImmutable", fmt.Sprintf("a new handle on the same DB cannot open version %d just saved: %v", ver, err))
+	}
+	defer done()
+	if h := snap.Hash(); !bytes.Equal(h, e.savedHash) {
+		return e.fail(act, "fresh-handle:hash", fmt.Sprintf("SaveVersion returned %x for version %d, a new handle on the same DB reports %x for that version", e.savedHash, ver, h))
+	}
+	if a, b := e.sweep(snap, e.lastSv[ver-1], fmt.Sprintf("version %d through a new handle on the same DB", ver), false); a != "" {
+		return e.fail(act, "fresh-handle:"+a, b)
+	}
+	return nil
+}
+
+// proveVersion: what a proof verifies is what the version holds. For a dense sample of keys (all of them up to 64
+// keys, every 3rd..7th and the touched region above) the tree's own proof (GetMembershipProof /
+// GetNonMembershipProof of a snapshot, and the GetVersionedProof-style entry point alternately) must verify through
+// ics23 against the version's root hash: membership with the value the version holds, non-membership for absent
+// keys. Keys with an empty value (and gaps next to one) are skipped: ics23 cannot verify empty values (documented).
+func (e *env) proveVersion(act string, snap reader, v int, w []int) *failure {
+	spec := e.t.Spec()
+	root := snap.Hash()
+	p := present(w)
+	if len(p) == 0 {
+		return nil
+	}
+	nk := len(w)
+	empty := func(k int) bool { return k > 0 && len(e.vals[w[k-1]]) == 0 }
+	stride, off := 1, 0
+	if nk > 64 {
+		stride = 3 + e.rng.Intn(5)
+		off = e.rng.Intn(stride)
+	}
+	pick := map[int]bool{}
+	for k := 1 + off; k <= nk; k += stride {
+		pick[k] = true
+	}
+	for _, k := range e.touch {
+		if k >= 1 && k <= nk {
+			pick[k] = true
+		}
+	}
+	for k := range e.replayKeys {
+		pick[k] = true
+	}
+	for k := 1; k <= nk; k++ {
+		if !pick[k] {
+			continue
+		}
+		key := e.keys[k]
+		var proof *ics23.CommitmentProof
+		var err error
+		if k%2 == 0 {
+			proof, err = e.t.VersionedProof(key, int64(v))
+		} else if w[k-1] != 0 {
+			proof, err = snap.Member(key)
+		} else {
+			proof, err = snap.NonMember(key)
+		}
+		if w[k-1] != 0 {
+			if err != nil || proof.GetExist() == nil {
+				return e.fail(act, "proof:member:complete", fmt.Sprintf("version %d: no membership proof for the present key %q: %v", v, key, err))
+			}
+			if empty(k) {
+				continue
+			}
+			if !verM(spec, root, proof, key, e.vals[w[k-1]]) {
+				return e.fail(act, "proof:member:complete", fmt.Sprintf("version %d: the tree's membership proof of (%q, value id %d) does not verify against the version's root hash %x", v, key, w[k-1], root))
+			}
+			e.proofsOK++
+			if rv, ok := e.replayKeys[k]; ok && e.replaySaved && v > e.adoptVer && rv == w[k-1] {
+				e.replayProofs++
+			}
+			continue
+		}
+		i := rank(p, k)
+		left, right := 0, 0
+		if i > 0 {
+			left = p[i-1]
+		}
+		if i < len(p) {
+			right = p[i]
+		}
+		if err != nil || proof.GetNonexist() == nil {
+			return e.fail(act, "proof:nonmember:complete", fmt.Sprintf("version %d: no non-membership proof for the absent key %q: %v", v, key, err))
+		}
+		if empty(left) || empty(right) {
+			continue
+		}
+		if !verN(spec, root, proof, key) {
+			return e.fail(act, "proof:nonmember:complete", fmt.Sprintf("version %d: the tree's non-membership proof of %q (between keys %d and %d; 0 = none) does not verify against the version's root hash %x", v, key, left, right, root))
+		}
+		e.proofsOK++
 	}
 	return nil
 }
@@ -1013,7 +1256,7 @@ func main() {
 	}
 	var mu sync.Mutex
 	reported := map[string]int{}
-	var replays, okc, steps, flaky, states, drift int64
+	var replays, okc, steps, flaky, states, drift, adopted, replayProofs, proofsOK, leftMerges int64
 	heights := map[int]int{}
 	var wg sync.WaitGroup
 	nw := runtime.NumCPU()
@@ -1035,6 +1278,10 @@ func main() {
 					mu.Lock()
 					heights[e.maxH]++
 					drift += int64(e.drift)
+					leftMerges += int64(e.leftMerges)
+					adopted += int64(e.adopted)
+					replayProofs += int64(e.replayProofs)
+					proofsOK += int64(e.proofsOK)
 					mu.Unlock()
 					if fl == nil {
 						lok++
@@ -1073,7 +1320,8 @@ func main() {
 	for i := 0; i < len(behs) && i < 2; i++ {
 		mbt.Sample(brief(behs[i]))
 	}
-	mbt.Summary(map[string]any{"behaviours": len(behs), "replays": replays, "replays_ok": okc, "steps": steps, "flaky": flaky, "states_compared": states, "max_height_histogram": fmt.Sprint(heights), "iavl_prune_refused_after_restart": drift})
+	mbt.Summary(map[string]any{"behaviours": len(behs), "replays": replays, "replays_ok": okc, "steps": steps, "flaky": flaky, "states_compared": states, "max_height_histogram": fmt.Sprint(heights), "iavl_prune_refused_after_restart": drift,
+		"inner_merges_into_untouched_left": leftMerges, "replays_saved_idempotently": adopted, "proofs_through_replayed_nodes": replayProofs, "version_proofs_verified": proofsOK})
 	mbt.Flush()
 }
 
